@@ -15,6 +15,8 @@ func init() {
 			r.Floor("EF-EOF-TRANSLATION", 12)
 			ruleLenObligations(c, r)
 			ruleRawEOFFlag(c, r, "")
+			ruleReaderFrom(c, r, "")
+			ruleBlockEnd(c, r, "")
 			ruleDecoderReadErr(c, r, "")
 			ruleIO(c, r, readerCone(c), "", true)
 		},
